@@ -41,6 +41,8 @@
 (* Oracle (ghost) variables are computed from the publications and the set *)
 (* the resolver trusted when it fetched (gT), never from cur/tombs:        *)
 (*   seenSince[k]  age of k's continuous presence in accepted refreshes    *)
+(*   firstEver[k]  age of k's first appearance in any accepted refresh      *)
+(*                 (never reset: distinguishes a re-published key)         *)
 (*   earned        keys that completed >= 30 d of such presence            *)
 (*   missSince[k]  age of k's continuous absence                           *)
 (*   revAcc        materials whose self-signed revocation was accepted and *)
@@ -107,7 +109,7 @@ VARIABLES
   tombErr, stateErr,
   nRefresh, nRestart, nCrash, nWF, nRF,
   \* ---- oracle ----
-  seenSince, earned, missSince, revAcc, revVol,
+  seenSince, firstEver, earned, missSince, revAcc, revVol,
   gT,             \* what the resolver trusted when it fetched
   gFull,          \* the RRset carries a valid signature of a trusted, non-revoked key
   gRevSet,        \* trusted keys published revoked with a valid self-signature
@@ -116,7 +118,7 @@ VARIABLES
 implVars  == <<rootKeys, stateFile, tombFile, tombUnreadable, booting, pc, zone, prior, cur,
                tombs, cand, fetched, revOnly, staged, newRev, tombErr, stateErr>>
 bound     == <<nRefresh, nRestart, nCrash, nWF, nRF>>
-ghost     == <<seenSince, earned, missSince, revAcc, revVol, gT, gFull, gRevSet>>
+ghost     == <<seenSince, firstEver, earned, missSince, revAcc, revVol, gT, gFull, gRevSet>>
 vars      == <<now, implVars, bound, ghost, ev>>
 View      == <<implVars, nRefresh, nRestart, nWF, nRF, ghost>>   \* now, nCrash, ev: history only, no guard reads them
 DirView   == <<View, nCrash>>
@@ -178,7 +180,7 @@ Init ==
   /\ fetched = Empty /\ revOnly = FALSE /\ staged = {} /\ newRev = FALSE
   /\ tombErr = FALSE /\ stateErr = FALSE
   /\ nRefresh = 0 /\ nRestart = 0 /\ nCrash = 0 /\ nWF = 0 /\ nRF = 0
-  /\ seenSince = [k \in Keys |-> None] /\ earned = {} /\ missSince = [k \in Keys |-> None]
+  /\ seenSince = [k \in Keys |-> None] /\ firstEver = [k \in Keys |-> None] /\ earned = {} /\ missSince = [k \in Keys |-> None]
   /\ revAcc = {} /\ revVol = {} /\ gT = {} /\ gFull = FALSE /\ gRevSet = {}
   /\ ev = [a |-> "Init"]
 
@@ -214,6 +216,7 @@ Begin(d, rf) ==
   /\ tombFile' = IF rf = "tombCorrupt" THEN [kind |-> "corrupt", s |-> {}] ELSE tombFile
   /\ tombUnreadable' = (rf = "tombUnreadable")
   /\ seenSince' = [k \in Keys |-> Older(seenSince[k], d)]
+  /\ firstEver' = [k \in Keys |-> Older(firstEver[k], d)]
   /\ missSince' = [k \in Keys |-> Older(missSince[k], d)]
   /\ prior' = (rootKeys # {})                      \* priorTrustValid := r.hasTrustAnchors()
   /\ Step("ReadState")
@@ -228,7 +231,7 @@ Crash ==
   /\ rootKeys' = {}
   /\ nCrash' = nCrash + 1
   /\ ev' = [a |-> "Crash", at |-> pc]
-  /\ UNCHANGED <<now, stateFile, tombFile, nRefresh, nRestart, nWF, nRF, seenSince, earned, missSince, revAcc,
+  /\ UNCHANGED <<now, stateFile, tombFile, nRefresh, nRestart, nWF, nRF, seenSince, firstEver, earned, missSince, revAcc,
                  revVol>>
 
 Restart ==
@@ -261,7 +264,7 @@ ReadTombstones ==
        THEN /\ rootKeys' = {}
             /\ ClearLocals
             /\ ev' = [a |-> "ReadTombstones", r |-> "corrupt"]
-            /\ UNCHANGED <<now, stateFile, tombFile, bound, seenSince, earned, missSince, revAcc, revVol>>
+            /\ UNCHANGED <<now, stateFile, tombFile, bound, seenSince, firstEver, earned, missSince, revAcc, revVol>>
        ELSE /\ tombs' = IF tombUnreadable \/ tombFile.kind # "ok" THEN {} ELSE tombFile.s
             /\ Step("MigrateLegacy")
             /\ ev' = [a |-> "ReadTombstones",
@@ -320,7 +323,7 @@ Fetch(ok, z) ==
                            staged, newRev, tombErr, stateErr, gT, gFull, gRevSet>>
        ELSE /\ z = NoZone /\ ClearLocals /\ UNCHANGED rootKeys
   /\ ev' = [a |-> "Fetch", ok |-> ok, z |-> z]
-  /\ UNCHANGED <<now, stateFile, tombFile, bound, seenSince, earned, missSince, revAcc, revVol>>
+  /\ UNCHANGED <<now, stateFile, tombFile, bound, seenSince, firstEver, earned, missSince, revAcc, revVol>>
 
 \* ---- oracle, evaluated on the publication at the moment it is consumed ----
 OracleT       == IF rootKeys # {} THEN rootKeys ELSE cand
@@ -345,19 +348,20 @@ Authenticate(f) ==
             /\ IF OracleFull
                  THEN /\ LET ss == [k \in Keys |-> IF k \in Plain(zone) /\ seenSince[k] = None
                                                       THEN 0 ELSE seenSince[k]]
-                          IN /\ earned' = earned \cup {k \in Plain(zone) \ Configured : ss[k] >= 30}
+                          IN /\ firstEver' = [k \in Keys |-> IF k \in Plain(zone) /\ firstEver[k] = None THEN 0 ELSE firstEver[k]]
+                             /\ earned' = earned \cup {k \in Plain(zone) \ Configured : ss[k] >= 30}
                              /\ seenSince' = [k \in Keys |-> IF k \in Configured \cup earned'
                                                                THEN None ELSE ss[k]]
                       /\ missSince' = [k \in Keys |-> IF k \in OracleT /\ k \notin Plain(zone)
                                                            /\ missSince[k] = None
                                                         THEN 0 ELSE missSince[k]]
-                 ELSE UNCHANGED <<seenSince, earned, missSince>>
+                 ELSE UNCHANGED <<seenSince, firstEver, earned, missSince>>
             /\ Step("StageRevocations")
             /\ ev' = [a |-> "Authenticate", ok |-> TRUE, revOnly |-> ~Pass1, fetched |-> f]
             /\ UNCHANGED <<rootKeys, tombUnreadable, booting, zone, prior, cur, tombs, cand, staged, newRev,
                            tombErr, stateErr>>
        ELSE /\ f = Empty
-            /\ ClearLocals /\ UNCHANGED <<rootKeys, seenSince, earned, missSince>>
+            /\ ClearLocals /\ UNCHANGED <<rootKeys, seenSince, firstEver, earned, missSince>>
             /\ ev' = [a |-> "Authenticate", ok |-> FALSE]
   /\ UNCHANGED <<now, stateFile, tombFile, bound, revAcc, revVol>>
 
@@ -446,7 +450,7 @@ WriteTombstones(ok) ==
   /\ Step("DropMarkers")
   /\ ev' = [a |-> "WriteTombstones", ok |-> ok]
   /\ UNCHANGED <<now, rootKeys, stateFile, booting, zone, prior, cur, tombs, cand, fetched, revOnly, staged,
-                 newRev, stateErr, nRefresh, nRestart, nCrash, nRF, seenSince, earned, missSince, revVol, gT,
+                 newRev, stateErr, nRefresh, nRestart, nCrash, nRF, seenSince, firstEver, earned, missSince, revVol, gT,
                  gFull, gRevSet>>
 
 DropMarkers ==
@@ -472,7 +476,7 @@ WriteState(ok) ==
   /\ Step("PublishOrClear")
   /\ ev' = [a |-> "WriteState", ok |-> ok]
   /\ UNCHANGED <<now, rootKeys, tombFile, tombUnreadable, booting, zone, prior, cur, tombs, cand, fetched,
-                 revOnly, staged, newRev, tombErr, nRefresh, nRestart, nCrash, nRF, earned, revVol, gT, gFull,
+                 revOnly, staged, newRev, tombErr, nRefresh, nRestart, nCrash, nRF, firstEver, earned, revVol, gT, gFull,
                  gRevSet>>
 
 PublishOrClear ==
@@ -483,7 +487,7 @@ PublishOrClear ==
   /\ revVol' = IF tombErr /\ stateErr THEN revVol \cup gRevSet ELSE revVol
   /\ ClearLocals
   /\ ev' = [a |-> "PublishOrClear"]
-  /\ UNCHANGED <<now, stateFile, tombFile, bound, seenSince, earned, missSince, revAcc>>
+  /\ UNCHANGED <<now, stateFile, tombFile, bound, seenSince, firstEver, earned, missSince, revAcc>>
 
 Next ==
   \/ (pc = "idle" /\ \E d \in DaySteps, rf \in {"none"} \cup ReadFaultKinds : Begin(d, rf))
